@@ -10,7 +10,9 @@ from specs.retry import *
 KEEP0 = ['_buffer', 'g_dispatched', 'IDLE', 'CONNECTING', 'CONNECTED', 'protocol', 'factory', 'addr', 'transport',
         '_pingReq', 'queuePublishTx', 'windowPublish', 'windowPubRelease', 'windowPubRx', 'windowSubscribe',
         'windowUnsubscribe', '_window', '_initialT', '_bandwith', '_factor', '_version', '_cleanStart',
-        'onPublish', 'onDisconnection', 'onMqttConnectionMade']
+        'onPublish', 'onDisconnection', 'onMqttConnectionMade',
+        'state', 'connReq', 'keepalive', 'timer', 'pdu', 'lc_running', 'lc_interval', 'lc_fn', 'lc_owner',
+        'tr_aborts', 'tr_closes', 'cleanStart', 'version', 'session', 'resultCode', 'granted']
 KEEP = KEEP0 + ['g_firing', 'id']
 KEEP_API = KEEP0 + ['g_firing']        # API calls may draw a packet identifier
 
